@@ -48,6 +48,7 @@ func init() {
 			ruleVary(c, "R2")
 			rulePreflightOnly(c, "R3")
 			ruleCorsProvenance(c, "R4")
+			ruleCorsAlwaysOnServed(c, "R5")
 		},
 	})
 }
@@ -608,6 +609,7 @@ func ruleHeaderNameCase(c *Ctx, rule string) {
 	reach := g.Reach([]*ssa.Function{handle}, nil)
 	tainted := map[ssa.Value]bool{}
 	normal := map[ssa.Value]bool{}
+	untrimmed := map[ssa.Value]bool{} // items of a split list that did not pass TrimSpace yet
 	funcs := an.SortedFuncs(reach)
 	for changed := true; changed; {
 		changed = false
@@ -652,6 +654,17 @@ func ruleHeaderNameCase(c *Ctx, rule string) {
 					if caseNormalisers[n] || allN {
 						mark(normal, v)
 					}
+					switch n {
+					case "strings.Split", "strings.SplitN", "strings.SplitAfter":
+						mark(untrimmed, v)
+					case "strings.TrimSpace", "strings.Trim", "strings.Fields", "net/textproto.TrimString":
+					default:
+						for _, op := range x.Call.Args {
+							if untrimmed[op] {
+								mark(untrimmed, v)
+							}
+						}
+					}
 				case *ssa.MakeClosure:
 					fn := x.Fn.(*ssa.Function)
 					for i, b := range x.Bindings {
@@ -659,6 +672,9 @@ func ruleHeaderNameCase(c *Ctx, rule string) {
 							mark(tainted, fn.FreeVars[i])
 							if normal[b] {
 								mark(normal, fn.FreeVars[i])
+							}
+							if untrimmed[b] {
+								mark(untrimmed, fn.FreeVars[i])
 							}
 						}
 					}
@@ -672,6 +688,11 @@ func ruleHeaderNameCase(c *Ctx, rule string) {
 					if allN {
 						mark(normal, v)
 					}
+					for _, op := range in.Operands(nil) {
+						if *op != nil && untrimmed[*op] {
+							mark(untrimmed, v)
+						}
+					}
 				}
 			})
 			// stores into cells: a tainted value stored into an Alloc taints the cell
@@ -680,6 +701,9 @@ func ruleHeaderNameCase(c *Ctx, rule string) {
 					mark(tainted, st.Addr)
 					if normal[st.Val] {
 						mark(normal, st.Addr)
+					}
+					if untrimmed[st.Val] {
+						mark(untrimmed, st.Addr)
 					}
 				}
 			})
@@ -697,7 +721,7 @@ func ruleHeaderNameCase(c *Ctx, rule string) {
 					for _, a := range x.Call.Args {
 						if tainted[a] {
 							insensitive++
-							c.R.Add(rule, c.fk(f), "compare:"+shortCallee(n), c.pos(in), true, "case-insensitive comparison of a requested header name")
+							c.R.Add(rule, c.fk(f), "compare:"+shortCallee(n), c.pos(in), !untrimmed[a], ifelse(!untrimmed[a], "case-insensitive comparison of a trimmed requested header name", "an item of the comma-separated Access-Control-Request-Headers list is compared without trimming it: browsers send 'a, b' with a space after the comma, so the second name never matches"))
 							return
 						}
 					}
@@ -779,6 +803,10 @@ func ruleVary(c *Ctx, rule string) {
 	varied := map[string]bool{}
 	for _, hw := range c.headerWrites() {
 		if _, in := reach[hw.f]; !in || hw.name != hVary {
+			continue
+		}
+		if hw.op != "Add" {
+			c.R.Add(rule, c.fk(hw.f), "vary:"+hw.op, c.pos(hw.in), false, "Vary is written with "+hw.op+" instead of Add: the names added earlier on the same response (Access-Control-Request-Method / -Headers on a preflight, or an application's own Vary) are overwritten")
 			continue
 		}
 		s, isC := strConst(hw.val)
